@@ -202,9 +202,15 @@ func workMain(fs *flag.FlagSet, args []string) {
 		}
 	}
 
+	manualGC()
+	sinceGC := 0
 	for idx := *from + *w; idx < *to; idx += *W {
 		if *deadline > 0 && time.Now().Unix() >= *deadline {
 			break
+		}
+		if sinceGC++; sinceGC >= 32 {
+			collectGarbage()
+			sinceGC = 0
 		}
 		if len(o.Unknown) >= 60 {
 			break
